@@ -269,6 +269,40 @@ fn dump_state(m: &UserModel) -> String {
     }
     s
 }
+/// C27: the structural invariants of a workbook, checked concretely
+fn well_formed(m: &UserModel) -> Vec<String> {
+    let mut bad = vec![];
+    let wb = &m.get_model().workbook;
+    if wb.worksheets.is_empty() { bad.push("no sheets".to_string()); }
+    let mut names: Vec<String> = wb.worksheets.iter().map(|w| w.name.to_uppercase()).collect(); names.sort(); let n0 = names.len(); names.dedup();
+    if names.len() != n0 { bad.push("duplicate sheet names".to_string()); }
+    let mut ids: Vec<u32> = wb.worksheets.iter().map(|w| w.sheet_id).collect(); ids.sort(); let i0 = ids.len(); ids.dedup();
+    if ids.len() != i0 { bad.push("duplicate sheet ids".to_string()); }
+    if let Some(v) = wb.views.get(&0) { if v.sheet as usize >= wb.worksheets.len() { bad.push(format!("selected sheet {} of {}", v.sheet, wb.worksheets.len())); } } else { bad.push("no workbook view".to_string()); }
+    for (i, w) in wb.worksheets.iter().enumerate() {
+        let mut last = 0;
+        for c in &w.cols {
+            if c.min < 1 || c.max > LAST_COLUMN || c.min > c.max || c.min <= last { bad.push(format!("sheet {i}: column descriptor {}..{} after {last}", c.min, c.max)); }
+            last = c.max;
+        }
+        let mut rs: Vec<i32> = w.rows.iter().map(|r| r.r).collect(); rs.sort(); let r0 = rs.len(); rs.dedup();
+        if rs.len() != r0 || rs.iter().any(|r| *r < 1 || *r > LAST_ROW) { bad.push(format!("sheet {i}: row descriptors")); }
+        for (r, row) in &w.sheet_data { for c in row.keys() { if *r < 1 || *r > LAST_ROW || *c < 1 || *c > LAST_COLUMN { bad.push(format!("sheet {i}: cell ({r},{c}) off the grid")); } } }
+        for (r, c) in w.links.keys() { if *r < 1 || *r > LAST_ROW || *c < 1 || *c > LAST_COLUMN { bad.push(format!("sheet {i}: link ({r},{c}) off the grid")); } }
+        if w.frozen_rows < 0 || w.frozen_rows > LAST_ROW || w.frozen_columns < 0 || w.frozen_columns > LAST_COLUMN { bad.push(format!("sheet {i}: frozen panes")); }
+        match w.views.get(&0) {
+            Some(v) => {
+                let rg = v.range;
+                let (r1, r2, c1, c2) = (rg[0].min(rg[2]), rg[0].max(rg[2]), rg[1].min(rg[3]), rg[1].max(rg[3]));
+                if v.row < 1 || v.row > LAST_ROW || v.column < 1 || v.column > LAST_COLUMN || v.row < r1 || v.row > r2 || v.column < c1 || v.column > c2 || r1 < 1 || r2 > LAST_ROW || c1 < 1 || c2 > LAST_COLUMN {
+                    bad.push(format!("sheet {i}: selection cell ({},{}) range {:?}", v.row, v.column, v.range));
+                }
+            }
+            None => bad.push(format!("sheet {i}: no view")),
+        }
+    }
+    bad
+}
 pub fn drive_undoall() -> Vec<String> {
     use crate::expressions::types::Area;
     let mut fails: Vec<String> = vec![];
@@ -332,6 +366,7 @@ pub fn drive_undoall() -> Vec<String> {
         let before = dump_state(&m);
         if let Err(e) = op(&mut m) { let _ = e; if dump_state(&m) != before { fails.push(format!("{name}: the operation failed and changed the state")); } continue; }
         let after = dump_state(&m);
+        for b in well_formed(&m) { fails.push(format!("{name}: after the operation the workbook is not well formed: {b}")); }
         // C03: a replica that applies the queued diffs of this operation reaches the same state
         {
             let mut replica = make();
@@ -352,6 +387,7 @@ pub fn drive_undoall() -> Vec<String> {
         }
         if let Err(e) = m.undo() { fails.push(format!("{name}: undo failed: {e}")); continue; }
         let undone = dump_state(&m);
+        for b in well_formed(&m) { fails.push(format!("{name}: after undo the workbook is not well formed: {b}")); }
         if undone != before {
             let (a, b): (Vec<&str>, Vec<&str>) = (before.lines().collect(), undone.lines().collect());
             let d: Vec<String> = a.iter().zip(b.iter()).filter(|(x, y)| x != y).take(1).map(|(x, y)| format!("{} -> {}", &x[..x.len().min(70)], &y[..y.len().min(70)])).collect();
